@@ -21,7 +21,7 @@ import (
 
 func TestMain(m *testing.M) { ev.Main(m) }
 
-const rule = "case = a generated module example.com/m of 5-12 packages (package i imports packages with a larger index; one diamond a->b, a->c, b->d, c->d by construction, further edges with a drawn density of 5-45%) plus a plan of staticcheck invocations. Every package exports a deprecated function, a pure function (optionally defined through the pure function of an import), a function that never returns a nil interface (optionally by returning the result of an import's), an impure and a maybe-nil control, a generic type; importers call them so that SA1019, SA4017 and SA4023 need facts of the dependency; 1-2 files with 2-6 local templates each (SA4000, S1002, both on one line, ST1005, SA4006, SA4003, SA4013, SA4018, S1005, S1009, S1021, S1023, ST1006, ST1012, ST1017, unused func/const/var/type/field/chain, interface-kept method, //lint:ignore by id and by glob, a useless directive, //lint:ignore U1000), optional //lint:file-ignore, optional staticcheck.conf (inherit,-S1002 | all,-ST1000,-SA4000 | all), optional in-package test (uses a function nothing else uses), optional external test (optionally importing an importer of the package under test). Plan: (i) -f json at every GOMAXPROCS in {1,2,3,4,8,16} plus repetitions, -f text/stylish/sarif/binary at drawn GOMAXPROCS, each run with its own VERIF_SCHED_SEED: stdout and exit status must be byte-identical per format; (ii) drawn packages analysed alone and drawn subsets of them named explicitly (two orders, ./p or full import path, duplicated patterns, ./... mixed in): the problems located in the files of p must equal those of the run of p alone, and those of ./...; (iii) the -race build on the same module at GOMAXPROCS 4 and 16 must not report a race and must print the same bytes. -tests is drawn per case and fixed. One evaluation = one compared pair of runs; non-trivial = the two runs differ in GOMAXPROCS (or in the seed when the binary has the scheduling hook), the module has >= 3 packages of which two are unordered by imports, and the output contains >= 1 problem that needs a fact of another package (SA1019/SA4017/SA4023 are only generated across package edges); for subset pairs additionally >= 2 packages are named; distinct by (module hash, configuration pair)"
+const rule = "case = a generated module example.com/m of 5-12 packages (package i imports packages with a larger index; one diamond a->b, a->c, b->d, c->d by construction, further edges with a drawn density of 5-45%) plus a plan of staticcheck invocations. Every package exports a deprecated function, a pure function (optionally defined through the pure function of an import), a function that never returns a nil interface (optionally by returning the result of an import's), an impure and a maybe-nil control, a generic type; importers call them so that SA1019, SA4017 and SA4023 need facts of the dependency; 1-2 files with 2-6 local templates each (SA4000, S1002, both on one line, ST1005, SA4006, SA4003, SA4013, SA4018, S1005, S1009, S1021, S1023, ST1006, ST1012, ST1017, unused func/const/var/type/field/chain, interface-kept method, //lint:ignore by id and by glob, a useless directive, //lint:ignore U1000), optional //lint:file-ignore, optional staticcheck.conf (inherit,-S1002 | all,-ST1000,-SA4000 | all), optional in-package test (uses a function nothing else uses), optional external test (optionally importing an importer of the package under test); in 60% of the modules two further packages with the same package name, file name and an unexported function on the same line that only one of them uses. A second family (TestFailingPackages) are std-free modules of 4-9 packages of which some need go1.26, run with -go 1.25: they fail while they are processed and hand their failure on to their importers. Plan: (i) -f json at every GOMAXPROCS in {1,2,3,4,8,16} (quick tier: three drawn values) plus repetitions, -f text/stylish/sarif/binary at drawn GOMAXPROCS, each run with its own VERIF_SCHED_SEED: stdout and exit status must be byte-identical per format; (ii) drawn packages analysed alone and drawn subsets of them named explicitly (two orders, ./p or full import path, duplicated patterns, ./... mixed in): the problems located in the files of p must equal those of the run of p alone, and those of ./...; (iii) the -race build on the same module at GOMAXPROCS 4 and 16 must not report a race and must print the same bytes. -tests is drawn per case and fixed. One evaluation = one compared pair of runs; non-trivial = the two runs differ in GOMAXPROCS (or in the seed when the binary has the scheduling hook), the module has >= 3 packages of which two are unordered by imports, and the output contains >= 1 problem that needs a fact of another package (SA1019/SA4017/SA4023 are only generated across package edges); for subset pairs additionally >= 2 packages are named; distinct by (module hash, configuration pair)"
 
 // signatures of the two order-noise defects of formats outside the three line-oriented ones
 const (
@@ -607,9 +607,9 @@ func TestSchedules(t *testing.T) {
 	}()
 	maxPkgs := ev.EnvInt("C06_MAXPKGS", 12, 12)
 	nrep := ev.EnvInt("C06_REPEATS", 1, 30)
-	nfmt := ev.EnvInt("C06_FMT_RUNS", 2, 6)
-	nsingles := ev.EnvInt("C06_SINGLES", 4, 6)
-	nsubsets := ev.EnvInt("C06_SUBSETS", 3, 0)
+	nfmt := ev.EnvInt("C06_FMT_RUNS", 1, 6)
+	nsingles := ev.EnvInt("C06_SINGLES", 3, 6)
+	nsubsets := ev.EnvInt("C06_SUBSETS", 2, 0)
 	allSubsets := ev.Thorough()
 	ev.Check(t, "TestSchedules", func(rt *rapid.T) {
 		c := &Case{}
@@ -673,6 +673,27 @@ func replayFile(t *testing.T, f, test string) {
 	b, err := os.ReadFile(f)
 	if err != nil {
 		ev.Infra("read %s: %v", f, err)
+		return
+	}
+	if strings.HasSuffix(f, ".fail.json") {
+		var fc FailCase
+		if err := json.Unmarshal(b, &fc); err != nil {
+			ev.Infra("decode %s: %v", f, err)
+			return
+		}
+		for i := 0; i < 3; i++ {
+			msg, infra := evalFailCase(&fc)
+			if infra != "" {
+				ev.Infra("replay %s: %s", f, infra)
+				return
+			}
+			if msg != "" {
+				ev.Violate(test, fmt.Sprintf("replay of %s (attempt %d of 3):\n%s", f, i+1, msg), "fail.json", b)
+				t.Errorf("%s", msg)
+				return
+			}
+		}
+		t.Logf("replay %s: property held in 3 evaluations", f)
 		return
 	}
 	var c Case
